@@ -89,6 +89,19 @@ def LicVisible (groups : Str → List Str) (c : LicConfig) (license : LTree) : P
   (c.master = [] ∧ c.entries = []) ∨
   eval (fun l => accepts groups (c.master ++ (c.entries.filter (·.1)).flatMap (·.2)) l false) license = true
 
+/-! ## deciding the sentence (for the driver) -/
+
+instance (c : KwConfig) : Decidable (Stable c) := by unfold Stable; infer_instance
+instance (c : KwConfig) (k : Str) : Decidable (Allowed c k) := by unfold Allowed; infer_instance
+instance (c : KwConfig) (kws : List Str) : Decidable (KwVisible c kws) := by unfold KwVisible; infer_instance
+instance (c : KwConfig) : Decidable (KwPlain c) := by unfold KwPlain; infer_instance
+instance (groups : Str → List Str) (c : LicConfig) (t : LTree) : Decidable (LicVisible groups c t) := by
+  unfold LicVisible; infer_instance
+
+/-- `Hit`, searching only the atoms some step adds (an atom never added is never in effect: `hitB_iff`) -/
+def hitB (matchesAtom : Str → Bool) (ops : List MaskOp) : Bool :=
+  (ops.flatMap (·.pos)).any fun a => inEffect ops a false && matchesAtom a
+
 /-! ## the sentence -/
 
 def Visible (groups : Str → List Str) (c : Config) (p : Pkg) : Prop :=
